@@ -52,6 +52,7 @@ EXTRA_TEMPLATES = [
     "a(i,j) = 0 * b(i,j) + c(i,j)",
     "a(i,j,k) = b(i,j,k) * c(k)",
     "a(i,j,k) = b(i,j,k) + c(k,j,i)",
+    "a(i) = (b(i) + c(i)) * d(i) + e(i)",
 ]
 
 
@@ -208,7 +209,7 @@ def fmt_has_sparse(fmt: str) -> bool:
 def gen_problems(seed: int, tier: str):
     """(assignment, formats) with a compressed level in the output format; deterministic in seed."""
     rng = random.Random(f"C02-problems:{seed}")
-    cap = 6 if tier == "quick" else 40
+    cap = 9 if tier == "quick" else 40
     problems = []
     templates = list(sweep.TEMPLATES) + EXTRA_TEMPLATES
     for a in templates:
@@ -238,7 +239,7 @@ def gen_problems(seed: int, tier: str):
 def gen_inputs(seed: int, tier: str, pi: int, a: str):
     """Inputs of problem number [pi]: independent of sharding and of the capacity."""
     rng = random.Random(f"C02-inputs:{seed}:{pi}")
-    n_sizes = 2 if tier == "quick" else 4
+    n_sizes = 3 if tier == "quick" else 4
     out = []
     sizes = {}
     for sizes in sweep.index_sizes_choices(a, rng, n_sizes):
@@ -279,6 +280,53 @@ def run_case(case, with_machine=True) -> dict:
     try:
         fn = tensor_method(a, f)
         args = {n: sweep.build(f[n], v["dims"], v["entries"]) for n, v in ins.items()}
+    except Exception as e:
+        n = err_name(e)
+        rec["status"] = "skip" if is_skipped(n) else "error"
+        rec["error"] = n + ": " + str(e)[:200]
+        return rec
+    # 1. the kernel's IR on the instrumented machine FIRST: when it already shows a memory error or an
+    #    ill-formed result, the native kernel is not run (it would corrupt this process' heap)
+    pa = sweep.parsed(a)
+    out_name = pa.target.name
+    out_fmt = fn._output_format
+    out_modes = ["d" if m.character == "d" else "s" for m in out_fmt.modes]
+    out_ordering = list(out_fmt.ordering)
+    sizes = {}
+    for index, participants in pa.expression.index_participants().items():
+        variable, dimension = next(iter(participants))
+        sizes[index] = ins[variable]["dims"][dimension]
+    out_dims = [sizes[i] for i in pa.target.indexes]
+    machine_bad = None
+    if with_machine:
+        try:
+            key = (a, json.dumps(f, sort_keys=True))
+            if key not in _IR_CACHE:
+                _IR_CACHE.clear()
+                _IR_CACHE[key] = generate_module_tensora(fn._problem, [KernelType.evaluate]).unwrap().definitions[0]
+            fdef = _IR_CACHE[key]
+            in_raw = {n: sweep.raw(t) for n, t in args.items()}
+            mres = im.run_kernel(fdef, out_name, out_dims, out_modes, out_ordering, in_raw)
+            level_dims = [out_dims[d] for d in out_ordering]
+            mrec = {"status": mres["status"], "error": mres["error"], "complete": mres["complete"],
+                    "final": mres["final"], "lengths": mres["lengths"]}
+            if mres["status"] == "ok" and mres["complete"]:
+                mrec["traces"] = im.extract_traces(mres["log"], out_name, out_modes, level_dims, mres["final"])
+            rec["machine"] = mrec
+            if mres["status"] == "memerror":
+                machine_bad = "memory error on the IR machine"
+            elif mres["status"] == "outoffuel":
+                machine_bad = "kernel does not terminate on the IR machine (fuel exhausted)"
+            elif mres["status"] == "ok" and not machine_final_sane(mres["final"], mres["complete"]):
+                machine_bad = "ill-formed final arrays on the IR machine"
+        except Exception as e:
+            rec["machine"] = {"status": "harness-error", "error": type(e).__name__ + ": " + str(e)[:300]}
+    if machine_bad:
+        rec["status"] = "machine-only"
+        rec["real_skipped"] = machine_bad
+        return rec
+    # 2. the real kernel
+    try:
         res = fn(**args)
     except Exception as e:
         n = err_name(e)
@@ -290,34 +338,42 @@ def run_case(case, with_machine=True) -> dict:
     rec["raw"] = raw
     rec["alloc_problems"] = problems
     # what the library's own accessors return, when the structure is sane enough to read
-    if not problems:
+    if not problems and raw_sane(raw):
         try:
             r2 = sweep.raw(res)
             rec["accessors_agree"] = all(r2[k] == raw[k] for k in ("dims", "ordering", "modes", "indices", "vals"))
         except Exception as e:
             rec["accessors_agree"] = "error " + type(e).__name__
         rec["reuse"] = reuse_checks(res, raw)
-    if with_machine:
-        try:
-            key = (a, json.dumps(f, sort_keys=True))
-            if key not in _IR_CACHE:
-                _IR_CACHE.clear()
-                _IR_CACHE[key] = generate_module_tensora(fn._problem, [KernelType.evaluate]).unwrap().definitions[0]
-            fdef = _IR_CACHE[key]
-            pa = sweep.parsed(a)
-            out_name = pa.target.name
-            in_raw = {n: sweep.raw(t) for n, t in args.items()}
-            out_modes = list(raw["modes"])
-            mres = im.run_kernel(fdef, out_name, raw["dims"], out_modes, raw["ordering"], in_raw)
-            level_dims = [raw["dims"][d] for d in raw["ordering"]]
-            mrec = {"status": mres["status"], "error": mres["error"], "complete": mres["complete"],
-                    "final": mres["final"], "lengths": mres["lengths"]}
-            if mres["status"] == "ok" and mres["complete"]:
-                mrec["traces"] = im.extract_traces(mres["log"], out_name, out_modes, level_dims, mres["final"])
-            rec["machine"] = mrec
-        except Exception as e:
-            rec["machine"] = {"status": "harness-error", "error": type(e).__name__ + ": " + str(e)[:300]}
+    elif not problems:
+        rec["reuse_skipped"] = "structure not sane enough to hand back to the library"
     return rec
+
+
+def raw_sane(r) -> bool:
+    """Cheap structural sanity (NOT the oracle): is it safe to let the library traverse this?"""
+    try:
+        ldims = [r["dims"][o] for o in r["ordering"]]
+        cnt = 1
+        for m, ix, d in zip(r["modes"], r["indices"], ldims):
+            if m == "d":
+                cnt *= d
+            else:
+                pos, crd = ix
+                if len(pos) != cnt + 1 or any(x is None for x in pos) or any(x is None for x in crd):
+                    return False
+                if pos[0] != 0 or any(a > b for a, b in zip(pos, pos[1:])) or pos[-1] != len(crd):
+                    return False
+                cnt = len(crd)
+        return r["vals"] is not None and cnt <= len(r["vals"])
+    except Exception:
+        return False
+
+
+def machine_final_sane(final, complete) -> bool:
+    if not complete:
+        return False
+    return raw_sane(final)
 
 
 # --------------------------------------------------------------------------------------------
@@ -436,8 +492,11 @@ def main():
 
         problems = gen_problems(req["seed"], req["tier"])
         k, n = req.get("shard", 0), req.get("nshards", 1)
+        skip = set(req.get("skip", []))
+        resume = req.get("resume")  # "pi.ci": everything up to and including this case was done
+        rpi, rci = (int(x) for x in resume.split(".")) if resume else (-1, -1)
         for pi, (a, f) in enumerate(problems):
-            if pi % n != k:
+            if pi % n != k or pi < rpi:
                 continue
             try:
                 tensor_method(a, f)
@@ -450,6 +509,8 @@ def main():
                 continue
             for ci, (sizes, ins) in enumerate(gen_inputs(req["seed"], req["tier"], pi, a)):
                 cid = f"{pi}.{ci}"
+                if cid in skip or (pi == rpi and ci <= rci):
+                    continue
                 out.write(json.dumps({"begin": cid, "assignment": a, "formats": f, "sizes": sizes,
                                       "inputs": entries_to_json(ins)}) + "\n")
                 out.flush()
@@ -470,6 +531,8 @@ def main():
             out.flush()
     elif mode == "operators":
         for i, c in enumerate(gen_operator_cases(req["seed"], req["tier"])):
+            if i <= req.get("resume_index", -1):
+                continue
             out.write(json.dumps({"begin": i}) + "\n")
             out.flush()
             rec = run_operator_case(c)
